@@ -107,3 +107,45 @@ func VerifHarness_C19_LoadMissing() {
 	verifAssert(idx.LoadCommandEmbeddings(verifFSRoot()+"/assets/none2.bin") != nil, "C19: a missing embedding file is an error, not a crash")
 	verifReach("rejected")
 }
+
+// cosine range on a small domain the FP solver can finish: 2-dimensional vectors whose
+// components are small integers (the rounding of sqrt(n)*sqrt(n) against n is what matters)
+func VerifHarness_C19_CosineSmall2() {
+	comp := func(name string) float32 {
+		x := verifInt(name)
+		verifAssume(x >= 0)
+		verifAssume(x <= 15)
+		return float32(x)
+	}
+	a := []float32{comp("a0"), comp("a1")}
+	b := []float32{comp("b0"), comp("b1")}
+	if verifBool("same") {
+		b = a
+	}
+	c := CosineSimilarity(a, b)
+	verifAssert(c <= 1, "C19: cosine similarity is at most 1")
+	verifAssert(c >= -1, "C19: cosine similarity is at least -1")
+	verifReach("cosine")
+}
+
+// cosine on vectors drawn from a grid of ordinary and special IEEE values (concrete
+// arithmetic, symbolic choices): a number in [-1, 1], symmetric, 0 with a zero vector
+func VerifHarness_C19_CosineGrid() {
+	vals := []float32{0, 1, -1, 2, 3, 9, 15, 1e-30, 3e38, float32(math.NaN()), float32(math.Inf(1))}
+	small := []float32{0, 1, -2, 3e38}
+	pick := func(name string, l []float32) float32 { return l[verifIntRange(name, 0, len(l)-1)] }
+	a := []float32{pick("a", vals), pick("a", vals)}
+	b := a
+	if !verifBool("same") {
+		b = []float32{pick("b", small), pick("b", small)}
+	}
+	c := CosineSimilarity(a, b)
+	verifAssert(!math.IsNaN(c), "C19: cosine similarity is a number")
+	verifAssert(c <= 1, "C19: cosine similarity is at most 1")
+	verifAssert(c >= -1, "C19: cosine similarity is at least -1")
+	verifAssert(math.Float64bits(c) == math.Float64bits(CosineSimilarity(b, a)), "C19: cosine similarity is symmetric")
+	if (a[0] == 0 && a[1] == 0) || (b[0] == 0 && b[1] == 0) {
+		verifAssert(c == 0, "C19: similarity with a zero vector is 0")
+	}
+	verifReach("cosine")
+}
